@@ -15,20 +15,25 @@
     Definitions only. *)
 From V.lib Require Import Prelude PyFloat PyVal.
 From V.model Require Import SimpleTypeLib.
-From Coq Require String Ascii.
-Import String.StringSyntax.
+From Coq Require Import Strings.Byte.
 
-(** ASCII literals as python strings / element paths written with slashes *)
-Fixpoint s2l (s : String.string) : str :=
-  match s with
-  | String.EmptyString => []
-  | String.String c r => Ascii.N_of_ascii c :: s2l r
+(** ASCII literals: a private literal type (so that the extracted code does not define a
+    type called string), converted to python strings / element paths written with slashes *)
+Inductive lit := Lit (b : list Byte.byte).
+Definition lit_of (b : list Byte.byte) : lit := Lit b.
+Definition lit_to (l : lit) : list Byte.byte := match l with Lit b => b end.
+Declare Scope lit_scope.
+Delimit Scope lit_scope with lit.
+String Notation lit lit_of lit_to : lit_scope.
+
+Definition s2l (l : lit) : str := map Byte.to_N (lit_to l).
+Definition pth (l : lit) : list str :=
+  match s2l l with
+  | [] => []
+  | s => split_on 47%N s
   end.
-Definition pth (s : String.string) : list str :=
-  match s with
-  | String.EmptyString => []
-  | _ => split_on 47%N (s2l s)
-  end.
+Definition leqb (a b : lit) : bool := str_eqb (s2l a) (s2l b).
+Definition sub (a b : lit) : lit := Lit (lit_to a ++ [Byte.x2f] ++ lit_to b).
 
 (** * keys and states *)
 Definition path := list str.
@@ -215,6 +220,7 @@ Inductive cond :=
 | CIsLength                   (* isinstance(value, Length) *)
 | CTruthy                     (* bool(value) *)
 | CIn (l : list pyval)        (* value in (tuple of constants) *)
+| CPred (f : aval -> bool)    (* any other test of the value alone *)
 | CAbsent (p : path)          (* the child element at p is None *)
 | CNot (c : cond)
 | CAnd (a b : cond)
@@ -235,6 +241,7 @@ Fixpoint cond_eval (c : cond) (v : aval) (s : st) : bool :=
   | CIsLength => match av_tag v with TLength => true | _ => false end
   | CTruthy => py_truth (av_val v)
   | CIn l => existsb (py_eqb (av_val v)) l
+  | CPred f => f v
   | CAbsent p => negb (present p s)
   | CNot c' => negb (cond_eval c' v s)
   | CAnd a b => cond_eval a v s && cond_eval b v s
@@ -251,7 +258,8 @@ Inductive step :=
 | SGuard (f : st -> aval -> res aval)          (* a test that reads the element; no write *)
 | SSetAttr (p : path) (a : str) (c : codec) (k : akind)
 | SPutAttr (p : path) (a : str) (t : str)      (* a constant attribute text *)
-| SDelAttr (p : path) (a : str).
+| SDelAttr (p : path) (a : str)
+| SWith (f : aval -> res aval) (x : step).     (* x on a value derived from the assigned one *)
 
 Inductive prog :=
 | Done
@@ -259,7 +267,7 @@ Inductive prog :=
 | Seq (s : step) (k : prog)
 | If (c : cond) (th el : prog).
 
-Definition do_step (x : step) (v : aval) (s : st) : st * res aval :=
+Fixpoint do_step (x : step) (v : aval) (s : st) : st * res aval :=
   match x with
   | SRequire p => if present p s then (s, Ok v) else (s, Err OtherErr)
   | SEnsure p init =>
@@ -284,6 +292,13 @@ Definition do_step (x : step) (v : aval) (s : st) : st * res aval :=
       else (s, Err OtherErr)
   | SPutAttr p a t => if present p s then (put (p, Some a) t s, Ok v) else (s, Err OtherErr)
   | SDelAttr p a => if present p s then (del (p, Some a) s, Ok v) else (s, Err OtherErr)
+  | SWith f x' => match f v with
+                  | Ok v' => match do_step x' v' s with
+                             | (s', Ok _) => (s', Ok v)
+                             | (s', Err e) => (s', Err e)
+                             end
+                  | Err e => (s, Err e)
+                  end
   end.
 
 Fixpoint run (p : prog) (v : aval) (s : st) : st * res unit :=
@@ -327,13 +342,14 @@ Definition in_region (k : key) (r : region) : bool :=
   | RSub p => is_prefix p (fst k)
   end.
 
-Definition step_writes (x : step) : list region :=
+Fixpoint step_writes (x : step) : list region :=
   match x with
   | SRequire _ | SMap _ | SCheck _ _ | SGuard _ => []
   | SEnsure p init => RKey (p, None) :: map (fun at_ => RKey (p, Some (fst at_))) init
   | SRemove p => [RSub p]
   | SAdd p _ => [RSub p]
   | SSetAttr p a _ _ | SPutAttr p a _ | SDelAttr p a => [RKey (p, Some a)]
+  | SWith _ x' => step_writes x'
   end.
 Fixpoint writes (p : prog) : list region :=
   match p with
